@@ -26,7 +26,7 @@ EXHAUSTIVE = {"quick": "all operation histories up to length 3 over the 14-opera
               "thorough": "all operation histories up to length 4 over the 14-operation alphabet"}
 REQUIRED = ["probes_contains", "probes_getitem", "probes_getattr", "probes_get", "probes_get_add",
             "probes_delitem", "probes_setvalue", "probes_int", "probes_slice",
-            "states_with_duplicates", "states_norm_on"]
+            "states_with_duplicates", "states_norm_on", "probes_get_default_kinds"]
 SOFT_DEADLINE = {"quick": 90, "thorough": 1200}
 
 NAMES = ["A", "a", "B", "", "1", "A:1"]      # "A:1" collides with a generated suffix: the only way to reach duplicate session names
@@ -52,6 +52,8 @@ def n_random(tier):
 
 
 def random_case(rng, tier):
+    if rng.random() < 0.3:
+        return {"kind": "ops", "ops": [list(rng.choice(OPS)) for _ in range(rng.randint(1, 5))], "norm": rng.random() < 0.5, "curves": True}
     L = rng.randint(4, 9)
     allops = OPS + [("insert", "mid", n) for n in NAMES] + [("del_key", "mid"), ("replace", "first", "A"),
                                                             ("replace", "last", "a"), ("pop", "mid")]
@@ -118,10 +120,15 @@ def run_case(case, ctx):
     ops = [tuple(o) for o in case["ops"]]
     norm = case["norm"]
 
+    curves = case.get("curves", False)
+    factory = (lambda name: lasio.CurveItem(name, "u", "v", "d", data=[1.0, 2.0])) if curves else None
+
     def rebuild():
-        return secops.build(lasio, ops, norm)
+        return secops.build(lasio, ops, norm, factory)
     sec = rebuild()
-    sig = (tuple(secops.state_sig(sec)), norm)
+    sig = (tuple(secops.state_sig(sec)), norm, curves)
+    if curves:
+        ctx.count("states_of_curve_items")
     if sig in _seen_states:
         ctx.count("histories_reaching_already_probed_state")
         ctx.evaluations += 1
@@ -222,6 +229,30 @@ def probe_state(ctx, rebuild, norm, tag):
             V("readonly-probe-changed-section", "read-only probes with key %r changed the section: %r -> %r" % (
                 k, before, now), {"state": sessions, "norm": norm})
             before = now
+    # ---- get() with HeaderItem / CurveItem / text defaults never changes the section without add=True -----------
+    for dflt in ("text default", lasio.HeaderItem("DF", "du", 7, "dd"), lasio.CurveItem("DC", "cu", "", "cd", data=[1.0])):
+        ctx.count("probes_get_default_kinds")
+        try:
+            g = sec.get("NO_SUCH_KEY_%d" % n, dflt)
+        except Exception as e:
+            V("get-raises", "s.get(absent, default=%s) raised %r" % (type(dflt).__name__, e), {"state": sessions, "norm": norm})
+            continue
+        if any(g is it for it in secops.raw_items(sec)) or snap(secops.raw_items(sec)) != before:
+            V("get-without-add-appended", "s.get(absent, default=%s) changed the section" % type(dflt).__name__, {"state": sessions, "norm": norm})
+        if getattr(g, "original_mnemonic", None) != "NO_SUCH_KEY_%d" % n:
+            V("get-default-wrong-mnemonic", "s.get(absent, default=%s) returned item named %r" % (type(dflt).__name__, getattr(g, "original_mnemonic", None)),
+              {"state": sessions, "norm": norm})
+        s8 = rebuild()
+        b8 = snap_nosession(secops.raw_items(s8))
+        try:
+            g8 = s8.get("NO_SUCH_KEY_%d" % n, dflt, add=True)
+        except Exception as e:
+            V("get-add-raises", "s.get(absent, default=%s, add=True) raised %r" % (type(dflt).__name__, e), {"state": sessions, "norm": norm})
+            continue
+        a8 = secops.raw_items(s8)
+        if len(a8) != len(b8) + 1 or snap_nosession(a8)[:-1] != b8 or a8[-1] is not g8:
+            V("get-add-not-exactly-one", "s.get(absent, default=%s, add=True): %d -> %d items" % (type(dflt).__name__, len(b8), len(a8)),
+              {"state": sessions, "norm": norm})
     # ---- integer keys and slices ------------------------------------------------------------
     for i in int_range:
         ctx.count("probes_int")
